@@ -90,6 +90,16 @@ func genC01(c *Ctx) {
 		}
 	}
 	longCases(c, "fasta", 0)
+	boundaryCases(c, "fasta")
+	aliasCases(c, "fasta")
+	retainedMarshal(c, "fasta", func(i int) ([]byte, []byte) {
+		r := c.fastaRec(200)
+		r.Sequence = c.text(150, ">") // equal sizes: a recycled buffer would fit
+		mt, _ := r.MarshalText()
+		var b bytes.Buffer
+		r.Write(&b)
+		return mt, b.Bytes()
+	})
 	// Big sizes: direct oracle only (and model for the moderately big ones).
 	sizes := []int{65535, 65536, 65537}
 	if c.thor {
@@ -189,6 +199,38 @@ func genC02(c *Ctx) {
 		}
 	}
 	longCases(c, "fastq", 0)
+	boundaryCases(c, "fastq")
+	aliasCases(c, "fastq")
+	retainedMarshal(c, "fastq", func(i int) ([]byte, []byte) {
+		r := c.fastqRec(60)
+		r.Sequence, r.Quals = c.text(50, ""), c.text(50, "")
+		mt, _ := r.MarshalText()
+		var b bytes.Buffer
+		r.Write(&b)
+		return mt, b.Bytes()
+	})
+	// the '+' line dropped where the qualities contain a '+' (not first) and the next header is as long as the read
+	for i := 0; i < c.n(60); i++ {
+		L := 3 + c.rng.Intn(12)
+		q := c.text(L, "+")
+		q[1+c.rng.Intn(L-1)] = '+'
+		if q[0] == '+' {
+			q[0] = 'I'
+		}
+		r1 := &fastq.Fastq{Name: c.text(3, ""), Sequence: c.text(L, ""), Quals: c.text(L, "")}
+		r2 := &fastq.Fastq{Name: c.text(3, ""), Sequence: c.text(L, ""), Quals: q}
+		r3 := &fastq.Fastq{Name: c.text(L-1, ""), Sequence: c.text(4, ""), Quals: c.text(4, "")}
+		txt := fastqWrite([]*fastq.Fastq{r1})
+		txt = append(txt, []byte("@"+string(r2.Name)+"\n"+string(r2.Sequence)+"\n"+string(r2.Quals)+"\n")...) // no '+' line
+		txt = append(txt, fastqWrite([]*fastq.Fastq{r3})...)
+		items, st := decFastq(bytes.NewReader(txt), 0, len(txt)+16)
+		oracle := ""
+		if itemsStr(items, st) != fqS(r1)+"|E" {
+			oracle = "record without its '+' line is not rejected (qualities contain '+', next header as long as the read): " + trunc(itemsStr(items, st), 120)
+		}
+		c.add(Case{Op: "fq.dec e " + hx(txt), Impl: itemsStr(items, st), Kind: "corrupt-plus-dropped", Nontrivial: true, Oracle: oracle,
+			Note: fmt.Sprintf("text %q", trunc(string(txt), 200))})
+	}
 	sizes := []int{65535, 65536, 70000}
 	if c.thor {
 		sizes = append(sizes, 3<<20)
@@ -300,6 +342,27 @@ func genC03(c *Ctx) {
 	}
 	longCases(c, "sam", 3)
 	longCases(c, "samh", 4)
+	boundaryCases(c, "sam")
+	boundaryCases(c, "samh")
+	retainedMarshal(c, "sam", func(i int) ([]byte, []byte) {
+		r := c.samRec()
+		r.Seq, r.Qual = string(c.text(40, "")), string(c.text(40, ""))
+		mt, _ := r.MarshalText()
+		var b bytes.Buffer
+		r.Write(&b)
+		return mt, b.Bytes()
+	})
+	// a header line with many tab-separated fields stays a header
+	{
+		h := "@RG\tID:rg1\tSM:s\tLB:l\tPL:p\tPU:u\tCN:c\tDS:d\tDT:t\tPI:1\tPG:g\tPM:m\tFO:f\tKS:k"
+		txt := []byte(h + "\nq\t0\tr\t1\t2\t*\t=\t3\t4\tA\tI\n")
+		items, st := decSamH(bytes.NewReader(txt), 0, 100)
+		oracle := ""
+		if len(items) != 2 || items[0] != "H "+hx([]byte(h)) {
+			oracle = "a header line with 14 tab-separated fields is not returned verbatim as a header"
+		}
+		c.add(Case{Op: "sam.dech e " + hx(txt), Impl: itemsStr(items, st), Kind: "header-many-fields", Nontrivial: true, Oracle: oracle, Note: fmt.Sprintf("sam file %q", txt)})
+	}
 	// Flags: exhaustive 4096 values x 12 accessors/setters against the SAM-spec bit table.
 	type acc struct {
 		name string
@@ -406,6 +469,18 @@ func genC04(c *Ctx) {
 			Note: fmt.Sprintf("bed N=%d line %q", n, trunc(string(mt), 200))})
 	}
 	longCases(c, "bed", 3)
+	boundaryCases(c, "bed")
+	retainedMarshal(c, "bed", func(i int) ([]byte, []byte) {
+		r := c.bedRec(6)
+		r.Chrom, r.Name, r.ChromStart, r.ChromEnd, r.Score = string(c.text(8, "#")), string(c.text(20, "")), 100+i, 200+i, 5
+		if strings.HasPrefix(r.Chrom, "#") {
+			r.Chrom = "c" + r.Chrom
+		}
+		mt, _ := r.MarshalText()
+		var b bytes.Buffer
+		r.Write(&b)
+		return mt, b.Bytes()
+	})
 	for _, n := range []int{-1, 0, 1, 2, 13, 14, 100} {
 		b := c.bedRec(5)
 		b.N = n
@@ -580,6 +655,14 @@ func genC05(c *Ctx) {
 		})
 	}
 	longCases(c, "newick", 2)
+	boundaryCases(c, "newick")
+	retainedMarshal(c, "newick", func(i int) ([]byte, []byte) {
+		r := c.randTree(5)
+		mt, _ := r.MarshalText()
+		var b bytes.Buffer
+		r.Write(&b)
+		return mt, b.Bytes()
+	})
 	// Deep chains (oracle only beyond what the model driver's recursion can take).
 	depth := 100000
 	if c.thor {
@@ -644,5 +727,31 @@ func longCases(c *Ctx, name string, want int) {
 			c.add(Case{Op: decOpLine(f, "e", d), Impl: itemsStr(items, st), Kind: "long-" + variant, Nontrivial: true, Oracle: oracle,
 				Note: fmt.Sprintf("%s input with a %d-byte line (%s): %q…", name, len(d), variant, trunc(string(d), 60))})
 		}
+	}
+}
+
+
+// boundaryCases: inputs in which a later record / line / quoted name starts at
+// every offset around 4096 and 8192.
+func boundaryCases(c *Ctx, name string) {
+	var f *format
+	for _, g := range formats {
+		if g.name == name {
+			f = g
+		}
+	}
+	for _, d := range c.boundaryInputs(name) {
+		items, st := f.decode(bytes.NewReader(d), 0, len(d)+16)
+		oracle := ""
+		if st != "" || len(items) < 2 {
+			oracle = fmt.Sprintf("%s input with a record boundary near a 4096-byte multiple: %d items, status %q", name, len(items), st)
+		}
+		for _, it := range items {
+			if it == "E" {
+				oracle = fmt.Sprintf("%s input with a record boundary near a 4096-byte multiple yields an error item", name)
+			}
+		}
+		c.add(Case{Op: decOpLine(f, "e", d), Impl: itemsStr(items, st), Kind: "boundary", Nontrivial: true, Oracle: oracle,
+			Note: fmt.Sprintf("%s input of %d bytes: %q…", name, len(d), trunc(string(d), 40))})
 	}
 }
